@@ -388,3 +388,9 @@ def case_labels(case):
     if case['method'] == 'cycles':
         out.append('th:none' if case.get('th') is None else 'th:dict')
     return out
+
+
+def copy_json_kwargs(kw):
+    """deep copy of a compute_features kwargs dict that keeps tuples (amp_threshes)"""
+    import copy
+    return copy.deepcopy(kw)
